@@ -7,7 +7,9 @@ Binding: the real EtherCat.scan_serial_numbers() and concurrent Terminal.initial
 on a real EtherCat('x') attached to a simulated segment (harness/simbus via harness/addrbus) whose
 terminals have random pre-assigned station addresses; terminal_addr_range is narrowed to 4..8
 addresses so that collisions happen; task start order, start jitter and virtual response delays
-vary per case.  The probes (FPRD of 0x10 + working counter) and the writes of register 0x10 seen
+vary per case; in half of the cases a whole packet fails once or twice (sendto raising, or a
+truncated reply), aimed at a probe of an address a terminal holds, at any probe or at some
+frame, and the failed job is retried.  The probes (FPRD of 0x10 + working counter) and the writes of register 0x10 seen
 on the segment are the trace that TLC validates against Address.
 
 The upper end of the range: EtherCat.terminal_addr_range is handed to LockFile(minimum, maximum)
@@ -16,6 +18,7 @@ bound as excluded; UPPER_EXCLUSIVE states that reading.  Every trace is validate
 readings so that an assignment of exactly `hi` is reported as its own class of failure and does
 not mask anything else."""
 import asyncio
+import errno
 import logging
 import random
 import signal
@@ -31,6 +34,10 @@ UPPER_EXCLUSIVE = False     # gating reading: [lo, hi] inclusive, as randint and
 SCENARIOS = ("scan", "init", "scan+init", "scan;init", "init;scan")
 DELAYS = (0.0, 0.0, 0.0, 0.0005, 0.001, 0.003)
 JITTER = (0.0, 0.0, 0.0005, 0.002)
+# whole-packet transport failures: the AF_PACKET sendto raises, or the reply comes back truncated
+FAULT_KINDS = ("raise", "truncate")
+FAULT_TARGETS = ("occupied", "occupied", "probe", "frame")   # which frame is hit, see play()
+ERRNOS = (errno.ENOBUFS, errno.ENETDOWN)
 
 
 class Hang(BaseException):
@@ -41,7 +48,16 @@ def make_case(rng, ident):
     """parameters of one case (everything a replay needs)"""
     while True:
         n = rng.randint(2, 6)
-        width = rng.randint(4, 8)                  # number of addresses randint can pick
+        fault = None
+        if rng.random() < 0.5:
+            # a packet fails as a whole once or twice: at a probe of an address a terminal holds,
+            # at any probe, or at the k-th frame; the failed job is retried as a user would
+            fault = dict(kind=rng.choice(FAULT_KINDS), target=rng.choice(FAULT_TARGETS),
+                         skip=rng.choice((0, 0, 0, 1, 2)), count=rng.choice((1, 1, 2)),
+                         errno=rng.choice(ERRNOS), cut=rng.random(), frame=rng.randint(0, 25))
+            if fault["target"] == "occupied":
+                fault["skip"] = 0
+        width = rng.randint(4, 8) if fault is None else rng.randint(6, 12)
         lo = rng.choice((1000, 1000, 7, 4090, 29990))
         hi = lo + width - 1
         outside = [lo - 1, hi + 1, hi + 2, 5, 300, 40000]
@@ -66,10 +82,14 @@ def make_case(rng, ident):
         demand = len(inits) + sum(1 for a in conf if lo <= a <= hi)
         if "scan" in scenario:
             demand += sum(1 for a in conf if a == 0)
+        if fault and fault["target"] == "occupied" and not any(lo <= a <= hi for a in conf):
+            continue                               # needs a terminal answering inside the range
+        if fault is not None:                      # every failure may burn the addresses once more
+            demand *= fault["count"] + 1
         if demand <= hi - lo:                      # never exhaust the range (endless search)
             break
     return dict(id=ident, n=n, lo=lo, hi=hi, conf=conf, scenario=scenario, inits=inits,
-                scan_first=rng.random() < 0.5,
+                scan_first=rng.random() < 0.5, fault=fault,
                 delays=[rng.choice(DELAYS) for _ in range(40)],
                 jitter=[rng.choice(JITTER) for _ in range(n + 1)],
                 seed=rng.randrange(1 << 30))
@@ -87,12 +107,37 @@ def play(case, budget=200000, wall=20):
     delays = list(case["delays"])
     nframe = [0]
 
-    def policy(frame):
-        d = delays[nframe[0] % len(delays)]
-        nframe[0] += 1
-        return [("return", d)]
+    fault = case.get("fault")
+    fstate = dict(left=fault["count"], skip=fault["skip"]) if fault else None
+    info = dict(exceptions=[], stalled=None, scan=None, faults=[])
 
-    info = dict(exceptions=[], stalled=None, scan=None)
+    def hit(frame, k):
+        """is this the frame the transport failure is aimed at?"""
+        if fault["target"] == "frame":
+            return k >= fault["frame"]
+        probes = [d["adp"] for d in simbus.parse_frame(frame)["dgrams"]
+                  if d["cmd"] == simbus.FPRD and d["ado"] == 0x10]
+        if fault["target"] == "probe":
+            return bool(probes)
+        return any(t.station == a for a in probes for t in terms)      # "occupied"
+
+    def policy(frame):
+        k = nframe[0]
+        d = delays[k % len(delays)]
+        nframe[0] += 1
+        if fstate and fstate["left"] and hit(frame, k):
+            if fstate["skip"]:
+                fstate["skip"] -= 1
+            else:
+                fstate["left"] -= 1
+                info["faults"].append((fault["kind"], k))
+                if fault["kind"] == "raise":      # the frame never reaches the segment
+                    raise OSError(fault["errno"], "simulated transport failure")
+                resp = bus.process(frame)         # it passed the terminals, the reply is cut short
+                end = simbus.parse_frame(frame)["end"]
+                cut = 16 + int(fault["cut"] * (end - 16))      # keeps the packet index
+                return [("raw", d, resp[:max(16, min(cut, end - 1))])]
+        return [("return", d)]
 
     async def main():
         ec = EtherCat("x")
@@ -103,10 +148,13 @@ def play(case, budget=200000, wall=20):
         async def guarded(name, j, coro_fn):
             if j:
                 await asyncio.sleep(j)
-            try:
-                return await coro_fn()
-            except Exception as e:       # not an address assignment: counted, not judged here
-                info["exceptions"].append((name, type(e).__name__, str(e)[:120]))
+            for attempt in range(3):     # a job that failed is tried again, as a user would
+                try:
+                    return await coro_fn()
+                except Exception as e:   # not an address assignment: counted, not judged here
+                    info["exceptions"].append((name, type(e).__name__, str(e)[:120]))
+                    if not fault:
+                        return
 
         def init_jobs():
             return [guarded(f"init{i}", jit[i], lambda i=i: Terminal(ec).initialize(-i, None))
@@ -157,6 +205,24 @@ def play(case, budget=200000, wall=20):
     return ev, info
 
 
+def play_case(case, tries=24):
+    """play(); a case whose transport failure is aimed at the probe of an occupied address is
+    re-run with the next random seeds until that probe happens (the seed used is kept in the case)"""
+    res = play(case)
+    if (case.get("fault") or {}).get("target") == "occupied":
+        seed = case["seed"]
+        for i in range(1, tries):
+            if res[1]["faults"]:
+                break
+            case["seed"] = seed + i
+            res = play(case)
+        else:
+            if not res[1]["faults"]:
+                case["seed"] = seed
+                res = play(case)
+    return res
+
+
 def to_trace(case, ev):
     return dict(n=case["n"], conf=case["conf"], lo=case["lo"], hi=case["hi"], ev=ev)
 
@@ -183,7 +249,8 @@ def judge(ctx, cases, runs, strict, lenient):
         ctx.evaluated(("g" if isinstance(case["id"], int) else "r", case["id"]),
                       nontrivial=len(writes) >= 2)
         st = ctx.extra.setdefault("stats", dict(writes=0, probes=0, probes_answered=0,
-                                                assigned_hi=0, exceptions=0, stalled=0,
+                                                assigned_hi=0, exceptions=0, stalled=0, faults=0,
+                                                faults_on_occupied_probe=0,
                                                 probes_answered_by_several=0))
         st["writes"] += len(writes)
         st["probes"] += sum(1 for e in ev if e["op"] == "probe")
@@ -192,6 +259,9 @@ def judge(ctx, cases, runs, strict, lenient):
         st["assigned_hi"] += sum(1 for e in writes if e["a"] == case["hi"])
         st["exceptions"] += len(info["exceptions"])
         st["stalled"] += bool(info["stalled"])
+        st["faults"] += len(info["faults"])
+        st["faults_on_occupied_probe"] += len(info["faults"]) if (case.get("fault") or {}).get(
+            "target") == "occupied" else 0
         if len(ctx.samples) < 3 and len(writes) >= 3 and answered:
             ctx.sample(dict(case={k: case[k] for k in ("n", "lo", "hi", "conf", "scenario", "inits")},
                             ev=ev))
@@ -254,7 +324,7 @@ CHECK_DEADLOCK FALSE
     cases = [make_case(random.Random(f"C25/{i}"), i) for i in range(ngrid)]
     cases += [make_case(random.Random(ctx.rng.randrange(1 << 60)), f"s{ctx.seed}-{i}")
               for i in range(nrand)]
-    runs = [play(c) for c in cases]
+    runs = [play_case(c) for c in cases]
     traces = [to_trace(c, ev) for c, (ev, _) in zip(cases, runs)]
     # 3. TLC validates every trace, under both readings of the upper bound
     lenient = validate(ctx, wd, traces, True)
@@ -265,7 +335,10 @@ CHECK_DEADLOCK FALSE
     ctx.exhaustive = False
     ctx.rule = (f"{ngrid} fixed + {nrand} seeded cases: 2..6 terminals, random pre-assigned addresses (some shared by several terminals) in "
                 f"and around a range of 4..8 addresses, scan_serial_numbers and/or concurrent "
-                f"Terminal.initialize in varied start order, start jitter and response delays; "
+                f"Terminal.initialize in varied start order, start jitter and response delays; in half of "
+                f"the cases one or two packets fail as a whole (sendto raising ENOBUFS/ENETDOWN, or a "
+                f"truncated reply) at a probe of an occupied address, at any probe or at some frame, "
+                f"and failed jobs are retried; "
                 f"non-trivial = at least two addresses were assigned in the case")
     ctx.assumptions.append("the upper bound of terminal_addr_range is read as excluded "
                            "(LockFile/ParallelMailboxLock: minimum <= no < maximum)"
